@@ -492,7 +492,7 @@ def exhaustive(ctx):
                 n += 1
     n += directed(ctx)
     ctx.notes["exhaustive_alias_cases"] = n
-    ctx.notes["exhaustive"] = True
+    ctx.notes["exhaustive_substream"] = "a bounded sub-stream of this run is enumerated completely; the run as a whole samples an unbounded space"
 
 
 def ext_form():
